@@ -23,5 +23,7 @@ def inprocess(tier, seed):
 
 def run(tier):
     return modeldiff.run("C04", tier, "gen:gen_zset_cmd", RULE + "; plus in-process histories on the skip list itself "
-                         "(model comparison of items/ranks/ranges, walker after every operation; Miri in thorough)",
-                         check_every=8, hist_len=(20, 150), extra_fn=inprocess)
+                         "(model comparison of items/ranks/ranges, walker after every operation; Miri in thorough)"
+                         + "; 5% of the commands travel through redis.pcall in a script (effect = that of the direct command); "
+                         "in 1 of 30 histories the server is saved, killed and restarted on its dump at a random step",
+                         check_every=8, hist_len=(20, 150), extra_fn=inprocess, script_prob=0.05, restart_prob=0.03)
